@@ -487,7 +487,7 @@ def build(cls: type, spec: dict, override: dict | None = None, alt_children: dic
         for s in spec["settings"]:
             if s.get("special") == "rng_state":
                 n = override.get("rng_state", s["sentinel"])
-                obj._rng.random(n)  # advance the generator: a non-default state
+                _sim_rng(obj).random(n)  # advance the generator: a non-default state
         if spec["kind"] == "driver" and hasattr(obj, "add_move") and "moves" in {sl["name"] for sl in spec["slots"]}:
             st = (alt_children or {}).get("moves")
             if st is None and explicit:
@@ -502,9 +502,19 @@ def build(cls: type, spec: dict, override: dict | None = None, alt_children: dic
     return pr
 
 
+def _sim_rng(obj):
+    """the simulation's generator, found by type (robust to the private name it is kept under)"""
+    import numpy as _np
+
+    for v in vars(obj).values():
+        if isinstance(v, _np.random.Generator):
+            return v
+    return obj._rng
+
+
 def read_setting(obj, s: dict):
     if s.get("special") == "rng_state":
-        return obj._rng.bit_generator.state
+        return _sim_rng(obj).bit_generator.state
     tgt = obj.context if s["on_ctx"] else obj
     return getattr(tgt, s["attr"])
 
@@ -758,7 +768,7 @@ def extract(cls: type) -> dict:
         spec["settings"].append({"name": "atoms", "attr": "atoms", "on_ctx": False, "is_param": True, "conv": "id",
                                  "has_default": False, "sentinel": small_atoms(), "alt": small_atoms() * (1, 1, 2),
                                  "falsy": NoFalsy, "emit": []})
-        spec["settings"].append({"name": "rng_state", "attr": "_rng.bit_generator.state", "on_ctx": False,
+        spec["settings"].append({"name": "rng_state", "attr": "<generator>.bit_generator.state", "on_ctx": False,
                                  "is_param": False, "conv": "id", "has_default": True, "sentinel": 5, "alt": 11,
                                  "falsy": 0, "special": "rng_state", "emit": []})
     for s in spec["settings"]:
@@ -1097,7 +1107,13 @@ def write(specs: list[dict], out: Path | None = None) -> list[dict]:
     out = out or OUT
     out.parent.mkdir(parents=True, exist_ok=True)
     if not out.exists() or out.read_text() != text:
-        out.write_text(text)
+        try:
+            import common
+
+            with common.lean_lock(shared=False):
+                out.write_text(text)
+        except ImportError:
+            out.write_text(text)
     return specs
 
 
